@@ -1,5 +1,6 @@
 """C01 (partial): encoding never silently drops or substitutes a symbol (R-MISS); the serialised
 model/table and stream framing of each codec is parsed back with the same widths and order (R-PAIR)."""
+from vlib import fixtures
 import re
 
 from rules import miss, pair
@@ -18,6 +19,7 @@ PAIRS = [
 
 def run(ctx):
     fx = ctx.facts("default")
+    fixtures.run(ctx, ['miss', 'pair'])
     miss.run(ctx, fx, FILES, LOOKUPS, only=lambda f: not re.search(r'estimate|::tests::', f))
     ctx.floor("R-MISS.lookups", 12)
     ev = 0
